@@ -323,7 +323,10 @@ func C19(c *fw.Ctx) {
 			}
 		}
 		// status classes and stdin as pipe / file through the executable
-		progs := []struct{ src, stdin, wantOut string; status int }{
+		progs := []struct {
+			src, stdin, wantOut string
+			status              int
+		}{
 			{model.KwPrint + " 1;\n", "", "1\n", 0},
 			{model.KwPrint + " 1;\n#\n", "", "", 65},
 			{model.KwPrint + " 1;\n1 +;\n", "", "", 65},
@@ -364,7 +367,6 @@ func allEq(s []int, v int) bool {
 	}
 	return true
 }
-
 
 // expectedPrints: p0..p(upto-1) with `extra` inserted before p(pos).
 func expectedPrints(pos, upto int, extra string) string {
